@@ -233,11 +233,29 @@ PLANS = {
         "sample": lambda o: {"src": o["src"], "dump": o.get("d1text"), "recompiled_dump": o.get("d2text"), "mask": o["m"], "events": o["ev"]},
         "assumptions": ["TLC, Json module, harness recording; character table of harness/chars.go"],
     },
+    "C16": {
+        "mc": {"quick": [{"module": "MCReorder", "cfg": "cfg/MCReorder.quick.cfg"}],
+               "thorough": [{"module": "MCReorder", "cfg": "cfg/MCReorder.thorough.cfg", "timeout": 3400}]},
+        "drive": {"quick": [{"args": ["reorder", "-n", "5000", "-depth", "3", "-seed", "{seed}"]}],
+                  "thorough": [{"args": ["reorder", "-n", "120000", "-depth", "4", "-seed", "{seed}"]}]},
+        "judge": {"module": "JudgeReorder", "cfg": "JudgeReorder.cfg"},
+        "replay_args": ["reorder", "-n", "0"],
+        "engine": "eval",
+        "rule": "one case = (expression, the other three optimizations on/off, cost map M over the names it mentions and the "
+                "class keys with integer / fractional / negative values, a name k, M with k raised by 0.25 / 1 / 40, M with "
+                "k = 1e300); four compilations (Reordering off; on under M, raised, huge); judged on the Dump trees: only "
+                "and/or operand lists are permuted, operands equal up to renaming equal-cost variables keep source order "
+                "(symmetric constructions), a raise never moves an operand mentioning k ahead of one that does not, a huge "
+                "cost puts all operands mentioning k last and keeps the order of the others; non-trivial = reordering "
+                "changed the tree or a symmetric construction is present",
+        "sample": lambda o: {"src": o["src"], "costs": o["costs"], "raised_name": o["k"], "mask": o["m"]},
+        "assumptions": EVAL_ASSUME,
+    },
 }
 
 ENGINES = [
     {"name": "eval", "path": "spec/ (Values, Operators, Semantics, Optimizer, Layout, Machine, MCEval, MCFold, MCTry, JudgeEval, JudgeTry) + harness/",
-     "serves_properties": ["C01", "C02", "C03", "C04", "C05", "C10", "C12"],
+     "serves_properties": ["C01", "C02", "C03", "C04", "C05", "C10", "C12", "C16"],
      "kind_free_text": "TLA+ specification of optimizer, layout and the Eval/TryEval stack machines; TLC bounded model checking; "
                        "TLC trace validation of observations recorded by the Go harness from the real code"},
 ]
